@@ -135,7 +135,8 @@ func VerifC19_listing() {
 				d.Populate()
 				wantOut, _ := vfTextWith(d)
 				vfAssert(out == wantOut, "listed-name-selects-its-own-decoration")
-				out2, err2 := Render(vfSmallTable(), "texttable."+name)
+				prefix := []string{"texttable.", "TextTable.", "TEXTTABLE."}[vfChoice("prefix-case", 3)]
+				out2, err2 := Render(vfSmallTable(), prefix+name)
 				vfAssert(vfAnd(err2 == nil, out2 == wantOut), "name-and-texttable-dot-name-select-same-decoration")
 			}
 		}
